@@ -184,6 +184,13 @@ def in_child(fn, report_path, timeout=120):
     pid = os.fork()
     if pid == 0:
         code = 0
+        # temp files of a killed child must not be left in /tmp: keep them inside the case's scratch directory
+        try:
+            td = os.path.join(os.path.dirname(os.path.abspath(report_path)), 'child_tmp')
+            os.makedirs(td, exist_ok=True)
+            _tempfile.tempdir = td
+        except Exception:
+            pass
         try:
             try:
                 rep = fn()
